@@ -895,7 +895,7 @@ fn emit_one(otlp: &emit_otlp::Otlp, ev: &Ev, n: u64, nested: Option<(&Ev, u64)>)
     let (trace_text, span_text) = (trace_id.to_string(), span_id.to_string());
     // properties built by the macros are sorted at compile time and looked up by binary search: keys that are keywords
     // (written `r#async`) sort by their plain name
-    if ev.macro_raw && !ev.shadow && nested.is_none() && ev.payload == 0 && ev.agg == Some("count") {
+    if ev.macro_raw && !ev.shadow && nested.is_none() && ev.agg == Some("count") {
         let tpl = emit::Template::literal("simulated event");
         match (ev.kind, ev.mval) {
             (Kind::Span, _) => {
